@@ -251,3 +251,151 @@ theorem c10_rw_replicas_agree (rf n : Nat) (ops : List Op) :
   exact ⟨by rw [a1, b1], by rw [a2, b2], by rw [a2, a1]⟩
 
 end Jiva.Cluster
+
+namespace Jiva.Cluster
+open Jiva Sys
+
+/-- **C04 / C05 at the level of the volume (a detached replica comes back only through a fresh
+    add-and-rebuild).**  One step of ANY kind from ANY state: a replica directory that was not RW and is
+    RW afterwards was either promoted by this step — it was attached WO, and now holds what its RW source
+    holds — or it is the replica the election of this step ended on, the volume having been down. -/
+theorem c05_rw_only_by_promotion_or_election (s : Sys) (op : Op) (i : Nat)
+    (h0 : (s.node i).att ≠ .rw) (h1 : ((s.step op).1.node i).att = .rw) :
+    (∃ src, op = .promote i src ∧ (s.node i).att = .wo ∧ (s.node src).att = .rw ∧
+        ((s.step op).1.node i).log = (s.node src).log ∧ ((s.step op).1.node i).rev = (s.node src).rev) ∨
+    (∃ r, op = .reg r i ∧ s.up = false ∧ (s.step op).2 = .leader i) := by
+  cases op with
+  | reg r e =>
+    right
+    have h1' : ((s.stepReg r e).1.node i).att = .rw := h1
+    show ∃ r', Op.reg r e = Op.reg r' i ∧ s.up = false ∧ (s.stepReg r e).2 = .leader i
+    unfold stepReg at h1' ⊢
+    split at h1'
+    · exact absurd h1' h0
+    · rename_i hg
+      have hdown : s.up = false := by
+        cases hu : s.up with
+        | false => rfl
+        | true => exact absurd (Or.inl hu) hg
+      rw [if_neg hg]
+      have hreg : ∀ j, ((s.setNode r { s.node r with registered := true }).node j).att = (s.node j).att := by
+        intro j
+        show (if j = r then { s.node r with registered := true } else s.node j).att = _
+        by_cases ej : j = r
+        · subst ej; rw [if_pos rfl]
+        · rw [if_neg ej]
+      dsimp only at h1' ⊢
+      split at h1'
+      · rw [hreg] at h1'; exact absurd h1' h0
+      · rename_i hr
+        rw [if_neg hr]
+        split at h1'
+        · exact absurd h1' h0
+        · rename_i hl
+          rw [if_neg hl]
+          split at h1'
+          · rename_i hm
+            rw [if_pos hm]
+            -- the volume is started on `e`: only `e` becomes RW
+            have hnode : (({ s.setNode r { s.node r with registered := true } with maxRev := some e } : Sys).start e).node i =
+                if i = e then { (s.setNode r { s.node r with registered := true }).node e with att := .rw }
+                else (s.setNode r { s.node r with registered := true }).node i := rfl
+            rw [hnode] at h1'
+            by_cases ie : i = e
+            · subst ie; exact ⟨r, rfl, hdown, rfl⟩
+            · rw [if_neg ie, hreg] at h1'; exact absurd h1' h0
+          · rw [hreg] at h1'; exact absurd h1' h0
+  | write f a =>
+    exfalso
+    have h1' : ((s.stepWrite f a).1.node i).att = .rw := h1
+    unfold stepWrite at h1'
+    split at h1'
+    · exact h0 h1'
+    · split at h1'
+      · exact h0 h1'
+      · have h2 : (s.writeNode f a i).att = .rw := h1'
+        have := (writeNode_att s f a i (by rw [h2]; intro hc; cases hc)).1
+        rw [h2] at this; exact h0 this.symm
+  | add k =>
+    exfalso
+    have h1' : ((s.stepAdd k).1.node i).att = .rw := h1
+    unfold stepAdd at h1'
+    split at h1'
+    · exact h0 h1'
+    · have h2 : (if i = k then { s.node k with att := .wo } else s.node i).att = .rw := h1'
+      by_cases e : i = k
+      · rw [if_pos e] at h2; cases h2
+      · rw [if_neg e] at h2; exact h0 h2
+  | setrb k =>
+    exfalso
+    have h1' : ((s.stepSetRb k).1.node i).att = .rw := h1
+    unfold stepSetRb at h1'
+    split at h1'
+    · exact h0 h1'
+    · have h2 : (if i = k then { s.node k with rebuilding := true, log := [], snaps := [] } else s.node i).att = .rw := h1'
+      by_cases e : i = k
+      · subst e; rw [if_pos rfl] at h2; exact h0 h2
+      · rw [if_neg e] at h2; exact h0 h2
+  | promote k src =>
+    left
+    have h1' : ((s.stepPromote k src).1.node i).att = .rw := h1
+    show ∃ src', Op.promote k src = Op.promote i src' ∧ _ ∧ _ ∧ ((s.stepPromote k src).1.node i).log = _ ∧ ((s.stepPromote k src).1.node i).rev = _
+    unfold stepPromote at h1' ⊢
+    split at h1'
+    · exact absurd h1' h0
+    · rename_i hg
+      rw [if_neg hg]
+      have h2 : (if i = k then { s.node k with att := .rw, log := (s.node src).log, rev := (s.node src).rev, snaps := (s.node src).snaps }
+          else s.node i).att = .rw := h1'
+      by_cases e : i = k
+      · subst e
+        have hwo : (s.node i).att = .wo := by
+          cases hc : (s.node i).att with
+          | wo => rfl
+          | none => exact absurd (Or.inr (Or.inr (Or.inr (Or.inl (by simp [hc]))))) hg
+          | rw => exact absurd (Or.inr (Or.inr (Or.inr (Or.inl (by simp [hc]))))) hg
+        have hsrc : (s.node src).att = .rw := by
+          cases hc : (s.node src).att with
+          | rw => rfl
+          | none => exact absurd (Or.inr (Or.inr (Or.inr (Or.inr (by simp [hc]))))) hg
+          | wo => exact absurd (Or.inr (Or.inr (Or.inr (Or.inr (by simp [hc]))))) hg
+        refine ⟨src, rfl, hwo, hsrc, ?_, ?_⟩
+        · show (if i = i then _ else s.node i).log = _; rw [if_pos rfl]
+        · show (if i = i then _ else s.node i).rev = _; rw [if_pos rfl]
+      · rw [if_neg e] at h2; exact absurd h2 h0
+  | rbdone k =>
+    exfalso
+    have h1' : ((s.stepRbDone k).1.node i).att = .rw := h1
+    unfold stepRbDone at h1'
+    split at h1'
+    · exact h0 h1'
+    · have h2 : (if i = k then { s.node k with rebuilding := false } else s.node i).att = .rw := h1'
+      by_cases e : i = k
+      · subst e; rw [if_pos rfl] at h2; exact h0 h2
+      · rw [if_neg e] at h2; exact h0 h2
+  | remove k =>
+    exfalso
+    have h1' : ((s.stepRemove k).1.node i).att = .rw := h1
+    unfold stepRemove at h1'
+    split at h1'
+    · exact h0 h1'
+    · have h2 : (if i = k then { s.node k with att := .none } else s.node i).att = .rw := h1'
+      by_cases e : i = k
+      · rw [if_pos e] at h2; cases h2
+      · rw [if_neg e] at h2; exact h0 h2
+  | snap =>
+    exfalso
+    have h1' : ((s.stepSnap).1.node i).att = .rw := h1
+    unfold stepSnap at h1'
+    split at h1'
+    · exact h0 h1'
+    · have h2 : (if (s.node i).att = .rw then { s.node i with snaps := (s.node i).snaps ++ [(s.nextSnap, (s.node i).log)] }
+          else s.node i).att = .rw := h1'
+      split at h2 <;> exact h0 h2
+  | stop =>
+    exfalso
+    have h1' : ((s.stepStop).1.node i).att = .rw := h1
+    unfold stepStop at h1'
+    cases h1'
+
+end Jiva.Cluster
